@@ -35,6 +35,10 @@ def gen_case(r, idx):
                 env.append((name, "dangling", None))
             else:
                 env.append((name, "file-bad-utf8", r.choice(BAD_UTF8)))
+    if c["env_dir"] and idx % 100 == 99:
+        # large: hundreds of variables, values around and far beyond common buffer sizes
+        env += [(b"GEN_%d" % i, "file", r.choice(ENV_VALUES)) for i in range(r.randint(100, 400))]
+        env += [(b"BIG_%d" % k, "file", bytes([r.randrange(32, 127)]) * k) for k in (4095, 4096, 8193, 65536, 1000003)]
     c["env"] = env
     # targets
     t = dict(phase.TARGET_DEFAULT)
@@ -54,7 +58,7 @@ def gen_case(r, idx):
     c["bp_metadata"] = None if r.random() < 0.3 else tomlw.rnd_table(r, 0)
     c["bp_targets"] = r.randint(0, 2)
     # plan + store (build)
-    c["plan"] = [(r.choice(tomlw.RND_STRINGS), None if r.random() < 0.3 else tomlw.rnd_table(r, 1)) for _ in range(r.choice([0, 1, 2, 4]))]
+    c["plan"] = [(r.choice(tomlw.RND_STRINGS), None if r.random() < 0.3 else tomlw.rnd_table(r, 1)) for _ in range(r.choice([0, 1, 2, 4]) if idx % 100 != 98 else r.randint(40, 120))]
     c["store"] = r.choice(["absent", "absent", "valid", "valid", "valid-empty", "bad-utf8", "directory", "malformed", "no-metadata-key"])
     c["plan_defect"] = r.choice([None] * 8 + ["entry-unknown-key", "entry-unknown-table", "root-unknown-key", "entry-name-missing", "store-unknown-key"])
     c["store_md"] = tomlw.rnd_table(r, 0)
@@ -272,7 +276,7 @@ def shard_run(arg):
 
 def run(tier, seed, work):
     res = vp.Result("C06", tier, seed, "exploration")
-    n = 5000 if tier == "quick" else 40000
+    n = 5000 if tier == "quick" else 160000
     for d in vp.pmap(shard_run, [(seed, s, work) for s in vp.split(range(n), vp.NCPU)]):
         res.merge(d)
     res.rule = ("evaluations = phase executions whose context dump was compared with the generated inputs. distinct_nontrivial = distinct (phase, set of entry kinds in <platform>/env "
